@@ -110,6 +110,36 @@ func genC14(t *rapid.T) C14Case {
 		c.P, c.M = 0, 0
 	case "setrat":
 		c.I = genBigIntString(t, "num", 300)
+		if c.P > 0 && rapid.IntRange(0, 3).Draw(t, "boundary") == 0 {
+			// x = M +- 1/D with M sitting exactly on a rounding boundary of the receiver's precision (a tie, or a
+			// representable value) and D a long denominator: numerator and denominator both far longer than the precision
+			m := model.MkFinite(false, h.GenRoundDigits(t, "bm", int(c.P)), int64(rapid.IntRange(-5, 40).Draw(t, "be")))
+			if rapid.Bool().Draw(t, "bexact") {
+				m = model.MkFinite(false, h.GenDigitsN(t, "bm2", int(c.P)), m.Exp)
+			}
+			var d *big.Int
+			switch rapid.IntRange(0, 2).Draw(t, "bden") {
+			case 0:
+				d = new(big.Int).Exp(big.NewInt(3), big.NewInt(int64(rapid.IntRange(60, 200).Draw(t, "b3"))), nil)
+			case 1:
+				d = new(big.Int).Exp(big.NewInt(7), big.NewInt(int64(rapid.IntRange(40, 120).Draw(t, "b7"))), nil)
+			default:
+				d = bigOf(h.GenDigitsN(t, "bd", rapid.IntRange(40, 150).Draw(t, "bdn")))
+				d.SetBit(d, 0, 1)
+			}
+			r := model.ToRat(m)
+			eps := new(big.Rat).SetFrac(big.NewInt(1), d)
+			if rapid.Bool().Draw(t, "bminus") {
+				r.Sub(r, eps)
+			} else {
+				r.Add(r, eps)
+			}
+			if rapid.Bool().Draw(t, "bneg") {
+				r.Neg(r)
+			}
+			c.I, c.Den = r.Num().String(), r.Denom().String()
+			return c
+		}
 		switch rapid.IntRange(0, 3).Draw(t, "dencls") {
 		case 0:
 			v := new(big.Int).Exp(big.NewInt(2), big.NewInt(int64(rapid.IntRange(0, 80).Draw(t, "i2"))), nil)
@@ -379,7 +409,58 @@ func checkC14Out(c C14Case, o *h.Obs) *h.Fail {
 	return nil
 }
 
-const ruleC14 = "rapid-generated cases. (out) Decimals within 2 units of 2^63, 2^64, 10^19, 10^38, 2^32, 10^18 (with and without a 1-3 digit fractional tail, both signs), values with the point anywhere inside or beyond their digits, generic values up to 3000 digits with |exp| <= 5000, and values with any exponent (Int64/Uint64/IsInt/MinPrec only): Int (with and without destination), Int64, Uint64, Rat, IsInt, MinPrec against the exact value (truncation toward zero, accuracy Exact iff integer else sign of the discarded part, documented saturation incl. (0, Above) for negative Uint64 and nil for infinities); the operand must be unchanged. (in) SetInt (to 3000 digits, anchors +-2), SetInt64, SetUint64 (edges and uniform), SetRat (terminating / repeating / long denominators), NewDecimal (exponents over the whole int range incl. MaxInt64/MinInt64): value = exact argument rounded once, accuracy, precision rule for precision-0 receivers (both documented readings accepted for SetRat), NewDecimal saturating to +-0 / +-Inf. Non-trivial = fractional or saturating value, argument wider than 64 bits, rounded result, NewDecimal leaving the range, any SetRat."
+const ruleC14 = "rapid-generated cases. (out) Decimals within 2 units of 2^63, 2^64, 10^19, 10^38, 2^32, 10^18 (with and without a 1-3 digit fractional tail, both signs), values with the point anywhere inside or beyond their digits, generic values up to 3000 digits with |exp| <= 5000, and values with any exponent (Int64/Uint64/IsInt/MinPrec only): Int (with and without destination), Int64, Uint64, Rat, IsInt, MinPrec against the exact value (truncation toward zero, accuracy Exact iff integer else sign of the discarded part, documented saturation incl. (0, Above) for negative Uint64 and nil for infinities); the operand must be unchanged. (in) SetInt (to 3000 digits, anchors +-2), SetInt64, SetUint64 (edges and uniform), SetRat (terminating / repeating / long denominators), NewDecimal (exponents over the whole int range incl. MaxInt64/MinInt64): value = exact argument rounded once, accuracy, precision rule for precision-0 receivers (both documented readings accepted for SetRat), NewDecimal saturating to +-0 / +-Inf. Enumerated completely on every run (TestC14Grid): SetInt and Int/Rat/IsInt/MinPrec of 10^d-1, 10^d (and 10^d+12345 for every 7th d) for every d up to 2500 (quick) / 6000 (thorough) digits, SetInt of 2^b-1 and 2^b for b up to 8800 / 20000 bits - size-estimate defects in the integer converters show only at particular lengths. SetRat also gets values M +- 1/D with M exactly on a rounding boundary of the receiver's precision and D a 40-150 digit denominator. Non-trivial = fractional or saturating value, argument wider than 64 bits, rounded result, NewDecimal leaving the range, any SetRat."
+
+// TestC14Grid enumerates integer sizes completely: "magic length" defects in the binary<->decimal
+// integer converters (size estimates in SetInt/setNat and Int/decToNat) only show at particular digit
+// or bit counts.
+func TestC14Grid(t *testing.T) {
+	defer h.WriteStats("C14")
+	n := 0
+	run := func(c C14Case) {
+		o := &h.Obs{}
+		if f := propC14.SafeCheck(c, o); f != nil {
+			h.ReportGridFail(t, "C14", f, mustJSON(c))
+		}
+		h.RecordGrid("C14", o, c)
+		n++
+	}
+	maxDigits, maxBits := 2500, 8800
+	if h.Thorough() {
+		maxDigits, maxBits = 6000, 20000
+	}
+	ten := big.NewInt(10)
+	p := big.NewInt(1)
+	for d := 0; d <= maxDigits; d++ {
+		// 10^d - 1 (d nines), 10^d, 10^d + 12345: through SetInt (exact, precision 0) and back through Int
+		for _, delta := range []int64{-1, 0, 12345} {
+			v := new(big.Int).Add(p, big.NewInt(delta))
+			if v.Sign() <= 0 {
+				continue
+			}
+			if delta == 12345 && d%7 != 0 {
+				continue
+			}
+			run(C14Case{Op: "setint", I: v.String(), P: 0, M: 0})
+			vv := model.FromInt(v, 0)
+			run(C14Case{Op: "out", X: h.SpecOf(vv, uint(len(vv.Digits)), 0)})
+		}
+		p.Mul(p, ten)
+	}
+	two := big.NewInt(1)
+	for b := 0; b <= maxBits; b++ {
+		// 2^b - 1 (b one bits) and 2^b
+		if b%3 == 0 || b < 700 {
+			v := new(big.Int).Sub(two, big.NewInt(1))
+			if v.Sign() > 0 {
+				run(C14Case{Op: "setint", I: v.String(), P: 0, M: 0})
+			}
+			run(C14Case{Op: "setint", I: two.String(), P: uint(1 + b%40), M: uint8(b % 6)})
+		}
+		two.Lsh(two, 1)
+	}
+	h.AddExtra("C14", "size_grid_cases_enumerated", n)
+}
 
 var propC14 = &h.Prop[C14Case]{ID: "C14", Rule: ruleC14, Gen: genC14, Check: checkC14, Matchers: map[string]func(C14Case) bool{}}
 
